@@ -85,6 +85,43 @@ Proof.
     unfold process_config_entry in *. destruct (e_ty e =? LogConfiguration); simpl in *; repeat split; assumption.
 Qed.
 
+(* the last step of NewRaft (finding F13): a restored commit index that covers the latest configuration
+   marks it committed; only v_committed / v_committedIdx change *)
+Definition rec_fin (s : nstate) : nstate :=
+  if (0 <? v_commit s) && (v_latestIdx s <=? v_commit s)
+  then set_committed s (v_latest s) (v_latestIdx s) else s.
+
+Lemma rec_fin_commit0 s : v_commit s = 0 -> rec_fin s = s.
+Proof. intros H. unfold rec_fin. rewrite H. reflexivity. Qed.
+
+Lemma rec_fin_cases s : rec_fin s = s \/ rec_fin s = set_committed s (v_latest s) (v_latestIdx s).
+Proof. unfold rec_fin. destruct (_ && _); auto. Qed.
+
+Lemma scan_configs_durable_fin P n s from s' : scan_configs P s from n = Some s' ->
+  durable_eq (rec_fin s') s /\ v_term (rec_fin s') = v_term s /\ v_applied (rec_fin s') = v_applied s /\
+  v_fsm (rec_fin s') = v_fsm s /\
+  v_lastLogIdx (rec_fin s') = v_lastLogIdx s /\ v_lastLogTerm (rec_fin s') = v_lastLogTerm s /\
+  v_lastSnapIdx (rec_fin s') = v_lastSnapIdx s /\ v_lastSnapTerm (rec_fin s') = v_lastSnapTerm s /\
+  v_role (rec_fin s') = v_role s /\ v_commit (rec_fin s') = v_commit s.
+Proof.
+  intros H. apply scan_configs_durable in H. unfold rec_fin. destruct (_ && _); exact H.
+Qed.
+
+Lemma rec_snapshot_commit s2 s3 tr3 : rec_snapshot s2 = Some (s3, tr3) -> v_commit s3 = v_commit s2.
+Proof.
+  unfold rec_snapshot. destruct (find sn_ok _) as [sn|].
+  - intros H; inversion H; reflexivity.
+  - destruct (list_snaps _); [|discriminate]. intros H; inversion H; reflexivity.
+Qed.
+
+(* without RestoreCommittedLogs the commit index is still 0 at the end of NewRaft: the last step does nothing *)
+Lemma rec_fin_norc P s2 s3 tr3 from n s5 : v_commit s2 = 0 -> rec_snapshot s2 = Some (s3, tr3) ->
+  scan_configs P s3 from n = Some s5 -> rec_fin s5 = s5.
+Proof.
+  intros H2 H3 H5. apply rec_fin_commit0. apply scan_configs_durable in H5.
+  destruct H5 as (_ & _ & _ & _ & _ & _ & _ & _ & _ & ->). rewrite (rec_snapshot_commit _ _ _ H3). exact H2.
+Qed.
+
 (* What a successful NewRaft yields, for ANY durable image: *)
 Definition keys_ok (m : gmap N entry) : Prop := forall i e, m !! i = Some e -> e_idx e = i.
 
@@ -112,8 +149,8 @@ Proof.
   destruct (rec_snapshot _) as [[s3 tr3]|] eqn:E3; [|discriminate].
   destruct (rec_committed P s3) as [| | |s4 tr4] eqn:E4; try discriminate.
   match goal with |- context [scan_configs P ?S ?F ?N] => destruct (scan_configs P S F N) as [s5|] eqn:ES end; [|discriminate].
-  intros H; inversion H; subst s5 tr. clear H.
-  apply scan_configs_durable in ES.
+  fold (rec_fin s5). intros H; inversion H; subst s tr. clear H.
+  apply scan_configs_durable_fin in ES.
   destruct ES as (D5 & T5 & A5 & F5 & LI5 & LT5 & SI5 & ST5 & R5 & C5).
   (* facts about s3 *)
   set (s2 := set_lastlog (set_vol_term (fresh_volatile img) (d_term img)) (e_idx le) (e_term le)) in *.
